@@ -2110,7 +2110,12 @@ def _t_is_floating_point(x):
     return x.is_floating_point()
 
 
-def _t_round(x, decimals=0):
+def _t_round(x, decimals=0, out=None):
+    if symt.ROUND_EXACT[0] > 0 and isinstance(x, STensor):
+        # inside round_decimals (exact arithmetic, rounding not modelled): same values, torch's result object (a new tensor, or `out`)
+        if out is not None:
+            return out if out is x else out.copy_(x)
+        return x.clone()
     raise Unsupported("torch.round on symbolic values")
 
 
